@@ -160,4 +160,39 @@ func genUnbounded(tier string) {
 	for _, k := range kinds {
 		emit("unbounded", k)
 	}
+	for _, k := range []string{"uuid", "der", "base64-der", "jwt"} {
+		emit("truncated", k)
+	}
+}
+
+// truncated <kind>: whole-content formats must not be claimed for a file that is longer than the read cap (the cap is
+// lowered to 64 bytes for the experiment and restored): the first 64 bytes alone ARE a UUID / DER element / base64 /
+// JWT, the file as a whole is not.  Result: "ok <info>" of file.Inspect.
+func runTruncated(kind string) string {
+	old := file.MaxReadSize
+	file.MaxReadSize = 64
+	defer func() { file.MaxReadSize = old }()
+	pad := func(b []byte, with byte) []byte {
+		for len(b) < 64 {
+			b = append(b, with)
+		}
+		return b
+	}
+	var head []byte
+	switch kind {
+	case "uuid":
+		head = pad([]byte("6ba7b810-9dad-41d1-80b4-00c04fd430c8"), ' ')
+	case "der":
+		head = append([]byte{0x04, 62}, make([]byte, 62)...)
+	case "base64-der":
+		head = []byte("MD4EPAAAAAAAAAAAAAAAAAAAAAAAAAAAAAAAAAAAAAAAAAAAAAAAAAAAAAAAAAAAAAAAAAAAAAAAAAAAAAAAAAAA")[:64]
+	case "jwt":
+		head = pad([]byte("eyJhbGciOiJIUzI1NiJ9.eyJzdWIiOiJ4In0.c2ln"), '\n')
+	}
+	data := append(append([]byte{}, head...), []byte("\nTHIS FILE IS NOT A SINGLE OBJECT OF THAT KIND\n")...)
+	return resInfo(inspectAt("big.bin", data))
+}
+
+func init() {
+	ops["truncated"] = func(a []string) string { return runTruncated(a[0]) }
 }
